@@ -8,5 +8,7 @@ REGISTRY = {}
 
 
 def register(t):
+    import sys
+    t.sidecar = sys._getframe(1).f_globals.get('__name__')
     REGISTRY[t.name] = t
     return t
